@@ -73,8 +73,10 @@ class AddNode(BasicAction):
         self._apply()
 
     def inverse(self) -> BasicAction:
-        """Invert the action to delete nodes instead"""
-        return DeleteNode(self.tracks, self.node)
+        """Invert the action to delete nodes instead. Only the pixels that this action
+        painted are cleared again (the label may also be on pixels that were there
+        before, e.g. an unselected detection)"""
+        return DeleteNode(self.tracks, self.node, pixels=self.pixels)
 
     def _apply(self) -> None:
         """Apply the action, and set segmentation if provided in self.pixels"""
